@@ -58,9 +58,14 @@ type gatt struct {
 	fields []*gatt
 	name   string
 	req    bool
+	ref    string // kind U: a named (user) type
 }
 
-type g struct{ r *lp.Rng }
+type g struct {
+	r *lp.Rng
+	// named object types (kind U refers to them), in definition order
+	types []*gatt
+}
 
 var rats = []string{"0/1", "1/1", "2/1", "3/1", "5/1", "10/1", "-1/1", "-3/1", "1/2", "5/2", "-3/2", "100/1"}
 var strs = []string{"a", "ab", "abc", "x y", ""}
@@ -137,8 +142,64 @@ func (a *gatt) ruleToks() string {
 	return "R " + strconv.Itoa(len(items)) + " " + strings.Join(items, " ")
 }
 
+// resolved prints the attribute with its references to named types replaced by the types, to the given
+// depth (below it a placeholder no present value reaches).
+func (a *gatt) resolved(g *g, depth int) string {
+	switch a.kind {
+	case "U":
+		if depth <= 0 {
+			return "P b R 0"
+		}
+		return g.typ(a.ref).resolved(g, depth)
+	case "A":
+		return "A " + a.ruleToks() + " " + a.elem.resolved(g, depth-1)
+	case "M":
+		return "M " + a.ruleToks() + " " + a.key.resolved(g, depth-1) + " " + a.elem.resolved(g, depth-1)
+	case "O":
+		parts := []string{"O", strconv.Itoa(len(a.fields))}
+		for _, f := range a.fields {
+			req := "0"
+			if f.req {
+				req = "1"
+			}
+			parts = append(parts, lp.Enc(f.name), req, f.resolved(g, depth-1))
+		}
+		return strings.Join(parts, " ")
+	}
+	return a.toks()
+}
+
+func (g *g) typ(name string) *gatt {
+	for _, t := range g.types {
+		if t.name == name {
+			return t
+		}
+	}
+	panic("type " + name)
+}
+
+func (a *gatt) hasRef() bool {
+	switch a.kind {
+	case "U":
+		return true
+	case "A":
+		return a.elem.hasRef()
+	case "M":
+		return a.elem.hasRef()
+	case "O":
+		for _, f := range a.fields {
+			if f.hasRef() {
+				return true
+			}
+		}
+	}
+	return false
+}
+
 func (a *gatt) toks() string {
 	switch a.kind {
+	case "U":
+		return "U " + lp.Enc(a.ref)
 	case "b", "y", "s":
 		return "P " + a.kind + " " + a.ruleToks()
 	case "i":
@@ -229,6 +290,65 @@ func (g *g) length(a *gatt, free []int) int {
 // val generates a well-typed value of a: numbers around the bounds and in the enum, lengths around
 // the length bounds (multi-byte runes included), object fields absent one time in four.
 func (g *g) val(a *gatt) string {
+	v, _ := g.valD(a, 1000)
+	return v
+}
+
+// valD: references to named types are followed to the given depth only; ok = false when a value
+// would have to go deeper (the parent then leaves the field out / the collection empty).
+func (g *g) valD(a *gatt, depth int) (string, bool) {
+	r := g.r
+	switch a.kind {
+	case "U":
+		if depth <= 0 {
+			return "", false
+		}
+		return g.valD(g.typ(a.ref), depth)
+	case "A":
+		n := g.length(a, []int{0, 1, 2})
+		var parts []string
+		for i := 0; i < n; i++ {
+			v, ok := g.valD(a.elem, depth-1)
+			if !ok {
+				break
+			}
+			parts = append(parts, v)
+		}
+		return strings.Join(append([]string{"a", strconv.Itoa(len(parts))}, parts...), " "), true
+	case "M":
+		n := g.length(a, []int{0, 1, 2})
+		var parts []string
+		cnt := 0
+		for i := 0; i < n; i++ {
+			v, ok := g.valD(a.elem, depth-1)
+			if !ok {
+				break
+			}
+			k, _ := g.valD(a.key, depth-1)
+			parts = append(parts, k, v)
+			cnt++
+		}
+		return strings.Join(append([]string{"m", strconv.Itoa(cnt)}, parts...), " "), true
+	case "O":
+		var parts []string
+		n := 0
+		for _, f := range a.fields {
+			if r.Intn(4) == 0 {
+				continue
+			}
+			v, ok := g.valD(f, depth-1)
+			if !ok {
+				continue
+			}
+			n++
+			parts = append(parts, lp.Enc(f.name), v)
+		}
+		return strings.Join(append([]string{"o", strconv.Itoa(n)}, parts...), " "), true
+	}
+	return g.valPrim(a), true
+}
+
+func (g *g) valPrim(a *gatt) string {
 	r := g.r
 	switch a.kind {
 	case "b":
@@ -267,31 +387,73 @@ func (g *g) val(a *gatt) string {
 		return "s " + lp.Enc(s) + " " + bit() + " " + bit()
 	case "y":
 		return "y " + strconv.Itoa(g.length(a, []int{0, 2}))
-	case "A":
-		n := g.length(a, []int{0, 1, 2})
-		parts := []string{"a", strconv.Itoa(n)}
-		for ; n > 0; n-- {
-			parts = append(parts, g.val(a.elem))
-		}
-		return strings.Join(parts, " ")
-	case "M":
-		n := g.length(a, []int{0, 1, 2})
-		parts := []string{"m", strconv.Itoa(n)}
-		for ; n > 0; n-- {
-			parts = append(parts, g.val(a.key), g.val(a.elem))
-		}
-		return strings.Join(parts, " ")
 	}
-	var parts []string
-	n := 0
-	for _, f := range a.fields {
-		if r.Intn(4) == 0 {
-			continue
-		}
-		n++
-		parts = append(parts, lp.Enc(f.name), g.val(f))
+	panic("valPrim " + a.kind)
+}
+
+// userTypes generates 1-3 named object types; a field may refer to any of them (references to the type
+// itself or to a later type are optional, so that finite values exist).
+func (g *g) userTypes() {
+	g.types = nil
+	n := 1 + g.r.Intn(3)
+	for i := 0; i < n; i++ {
+		g.types = append(g.types, &gatt{kind: "O", name: fmt.Sprintf("T%d", i)})
 	}
-	return strings.Join(append([]string{"o", strconv.Itoa(n)}, parts...), " ")
+	for i, t := range g.types {
+		for k, nf := 0, 1+g.r.Intn(3); k < nf; k++ {
+			var f *gatt
+			switch g.r.Intn(6) {
+			case 0:
+				j := g.r.Intn(n)
+				f = &gatt{kind: "U", ref: g.types[j].name}
+				f.req = j < i && g.r.Intn(2) == 0
+			case 1:
+				f = &gatt{kind: "A", elem: &gatt{kind: "U", ref: g.types[g.r.Intn(n)].name}}
+				g.rules(f)
+				f.req = g.r.Intn(2) == 0
+			case 2:
+				key := &gatt{kind: "s"}
+				g.rules(key)
+				f = &gatt{kind: "M", key: key, elem: g.prim()}
+				g.rules(f)
+				f.req = g.r.Intn(2) == 0
+			default:
+				f = g.prim()
+				if g.r.Intn(3) == 0 {
+					f.rules, f.enum = map[string]string{}, nil // types without any validation exist too
+				}
+				f.req = g.r.Intn(3) == 0
+			}
+			f.name = fmt.Sprintf("g%d", k)
+			t.fields = append(t.fields, f)
+		}
+	}
+}
+
+// bodyWithTypes: a body object whose fields use the named types directly, in arrays and as map values.
+func (g *g) bodyWithTypes() *gatt {
+	a := &gatt{kind: "O"}
+	for i, n := 0, 1+g.r.Intn(4); i < n; i++ {
+		var f *gatt
+		ref := &gatt{kind: "U", ref: lp.Pick(g.r, g.types).name}
+		switch g.r.Intn(5) {
+		case 0, 1:
+			f = ref
+		case 2:
+			f = &gatt{kind: "A", elem: ref}
+			g.rules(f)
+		case 3:
+			key := &gatt{kind: "s"}
+			g.rules(key)
+			f = &gatt{kind: "M", key: key, elem: ref}
+			g.rules(f)
+		default:
+			f = g.prim()
+		}
+		f.name, f.req = fmt.Sprintf("f%d", i), g.r.Intn(2) == 0
+		a.fields = append(a.fields, f)
+	}
+	return a
 }
 
 func gen(seed uint64, tier string) {
@@ -307,6 +469,22 @@ func gen(seed uint64, tier string) {
 			fmt.Println("judge " + a.toks() + " " + gg.val(a))
 		}
 	}
+	// attribute trees with named (user) types: the emitted code calls Validate<Type>; judged against the
+	// specification of the attribute with its references resolved
+	gu := &g{r: lp.NewRng(seed*104729 + 7)}
+	for i := 0; i < n/2; i++ {
+		gu.userTypes()
+		a := gu.bodyWithTypes()
+		var env []string
+		for _, t := range gu.types {
+			env = append(env, lp.Enc(t.name), t.toks())
+		}
+		for k := 0; k < per; k++ {
+			depth := 2 + gu.r.Intn(4)
+			v, _ := gu.valD(a, depth)
+			fmt.Println("judgeu " + a.resolved(gu, depth+1) + " " + v + " ENV " + strconv.Itoa(len(gu.types)) + " " + strings.Join(env, " ") + " " + a.toks())
+		}
+	}
 }
 
 // ---------------------------------------------------------------- attribute construction
@@ -314,6 +492,8 @@ func gen(seed uint64, tier string) {
 type toks struct {
 	t []string
 	i int
+	// named types of a judgeu line
+	types map[string]*expr.UserTypeExpr
 }
 
 func (t *toks) next() string {
@@ -391,6 +571,12 @@ func (t *toks) rules(isInt bool) *expr.ValidationExpr {
 
 func (t *toks) att() *expr.AttributeExpr {
 	switch k := t.next(); k {
+	case "U":
+		ut, ok := t.types[lp.MustDec(t.next())]
+		if !ok {
+			panic("unknown type")
+		}
+		return &expr.AttributeExpr{Type: ut}
 	case "P":
 		switch p := t.next(); p {
 		case "b":
@@ -456,12 +642,7 @@ type node struct {
 func emitted(att *expr.AttributeExpr) ([]*node, string, error) {
 	ctx := codegen.NewAttributeContext(true, false, true, "", codegen.NewNameScope())
 	code := codegen.ValidationCode(att, nil, ctx, true, false, false, "body")
-	src := "package p\nfunc f() {\n" + code + "\n}\n"
-	file, err := parser.ParseFile(token.NewFileSet(), "x.go", src, 0)
-	if err != nil {
-		return nil, code, fmt.Errorf("unparsable: %v", err)
-	}
-	out, err := stmts(file.Decls[0].(*ast.FuncDecl).Body.List)
+	out, err := parseCode(code)
 	return out, code, err
 }
 
@@ -481,6 +662,51 @@ func run(ts []string) string {
 			return "unrecognised " + lp.Enc(err.Error()+"\n"+code)
 		}
 		return "code " + show(nodes)
+	case "judgeu":
+		// judgeu <resolved att> <val> ENV <k> (<hexname> <att>)*k <att>: the Lean side judges the resolved
+		// attribute; here the attribute with its named types goes through the real generator
+		v := t.val()
+		if t.next() != "ENV" {
+			return "bad-op"
+		}
+		k, _ := strconv.Atoi(t.next())
+		t.types = map[string]*expr.UserTypeExpr{}
+		start := t.i
+		// first pass: the names (types may refer to each other)
+		for i := 0; i < k; i++ {
+			name := lp.MustDec(t.next())
+			t.types[name] = &expr.UserTypeExpr{TypeName: name, AttributeExpr: &expr.AttributeExpr{Type: &expr.Object{}}}
+			t.skipAtt()
+		}
+		t.i = start
+		var order []string
+		for i := 0; i < k; i++ {
+			name := lp.MustDec(t.next())
+			order = append(order, name)
+			t.types[name].AttributeExpr = t.att()
+		}
+		body := t.att()
+		if t.i != len(t.t) {
+			return "bad-op"
+		}
+		nodes, code, err := emitted(body)
+		if err != nil {
+			return "unrecognised " + lp.Enc(err.Error()+"\n"+code)
+		}
+		fns := map[string][]*node{}
+		for _, name := range order {
+			ut := t.types[name]
+			ctx := codegen.NewAttributeContext(true, false, true, "", codegen.NewNameScope())
+			src := codegen.ValidationCode(ut.Attribute(), ut, ctx, true, false, false, "body")
+			fn, err := parseCode(src)
+			if err != nil {
+				return "unrecognised " + lp.Enc(err.Error()+"\n"+src)
+			}
+			fns[codegen.Goify(name, true)] = fn
+		}
+		viols := map[string]bool{}
+		execF(nodes, map[string]*value{"body": v}, viols, fns, 0)
+		return verdict(viols)
 	case "judge":
 		v := t.val()
 		if t.i != len(t.t) {
@@ -491,18 +717,74 @@ func run(ts []string) string {
 			return "unrecognised " + lp.Enc(err.Error()+"\n"+code)
 		}
 		viols := map[string]bool{}
-		exec(nodes, map[string]*value{"body": v}, viols)
-		if len(viols) == 0 {
-			return "code=called"
-		}
-		var names []string
-		for n := range viols {
-			names = append(names, n)
-		}
-		sort.Strings(names)
-		return "code=rejected:" + strings.Join(names, ",")
+		execF(nodes, map[string]*value{"body": v}, viols, nil, 0)
+		return verdict(viols)
 	}
 	return "bad-op"
+}
+
+func verdict(viols map[string]bool) string {
+	if len(viols) == 0 {
+		return "code=called"
+	}
+	var names []string
+	for n := range viols {
+		names = append(names, n)
+	}
+	sort.Strings(names)
+	return "code=rejected:" + strings.Join(names, ",")
+}
+
+// skipAtt skips one attribute in the token stream.
+func (t *toks) skipAtt() {
+	switch k := t.next(); k {
+	case "U":
+		t.next()
+	case "P":
+		if t.next() == "n" {
+			t.i += 3
+		}
+		t.skipRules()
+	case "A":
+		t.skipRules()
+		t.skipAtt()
+	case "M":
+		t.skipRules()
+		t.skipAtt()
+		t.skipAtt()
+	case "O":
+		n, _ := strconv.Atoi(t.next())
+		for ; n > 0; n-- {
+			t.i += 2
+			t.skipAtt()
+		}
+	default:
+		panic("skip " + k)
+	}
+}
+
+func (t *toks) skipRules() {
+	t.next()
+	k, _ := strconv.Atoi(t.next())
+	for ; k > 0; k-- {
+		switch kw := t.next(); kw {
+		case "en", "es":
+			n, _ := strconv.Atoi(t.next())
+			t.i += n
+		case "fmt", "pat":
+		default:
+			t.i++
+		}
+	}
+}
+
+func parseCode(code string) ([]*node, error) {
+	src := "package p\nfunc f() {\n" + code + "\n}\n"
+	file, err := parser.ParseFile(token.NewFileSet(), "x.go", src, 0)
+	if err != nil {
+		return nil, fmt.Errorf("unparsable: %v", err)
+	}
+	return stmts(file.Decls[0].(*ast.FuncDecl).Body.List)
 }
 
 func ratStr(r *big.Rat) string { return r.Num().String() + "/" + r.Denom().String() }
@@ -536,6 +818,8 @@ func show(list []*node) string {
 			b.WriteString("nn(" + n.target + "){" + show(n.body) + "};")
 		case "miss":
 			b.WriteString("miss(" + n.target + ");")
+		case "call":
+			b.WriteString("call(" + n.viol + "," + n.target + ");")
 		case "each":
 			b.WriteString("each(" + n.target + "){" + show(n.body) + "};")
 		case "kv":
@@ -650,29 +934,41 @@ func with(env map[string]*value, k string, v *value) map[string]*value {
 }
 
 // exec reads the emitted statements the way Go runs them; dereferencing a nil pointer is reported.
-func exec(list []*node, env map[string]*value, viols map[string]bool) {
+func execF(list []*node, env map[string]*value, viols map[string]bool, fns map[string][]*node, depth int) {
 	for _, n := range list {
 		v := resolve(n.target, env)
 		switch n.kind {
 		case "nn":
 			if v.kind != "absent" {
-				exec(n.body, env, viols)
+				execF(n.body, env, viols, fns, depth)
 			}
 		case "miss":
 			if v.kind == "absent" {
 				viols["missing_field"] = true
 			}
+		case "call":
+			// if err2 := Validate<Type>(target); err2 != nil { err = goa.MergeErrors(err, err2) }
+			fn, ok := fns[n.viol]
+			if !ok {
+				viols["CALL-of-unknown-function-"+n.viol] = true
+			} else if v.kind == "absent" {
+				viols["PANIC-nil-dereference"] = true // the generated Validate functions dereference their argument
+			} else if depth > 64 {
+				viols["RUNAWAY-recursion"] = true
+			} else {
+				execF(fn, map[string]*value{"body": v}, viols, fns, depth+1)
+			}
 		case "each":
 			if v.kind == "arr" {
 				for _, e := range v.elems {
-					exec(n.body, with(env, "e", e), viols)
+					execF(n.body, with(env, "e", e), viols, fns, depth)
 				}
 			}
 		case "kv":
 			if v.kind == "map" {
 				for i := range v.elems {
-					exec(n.body, with(env, "k", v.keys[i]), viols)
-					exec(n.body2, with(env, "v", v.elems[i]), viols)
+					execF(n.body, with(env, "k", v.keys[i]), viols, fns, depth)
+					execF(n.body2, with(env, "v", v.elems[i]), viols, fns, depth)
 				}
 			}
 		case "chk":
@@ -813,6 +1109,11 @@ func rootOf(t string) string {
 func stmtTarget(s ast.Stmt) string {
 	switch x := s.(type) {
 	case *ast.IfStmt:
+		if as, ok := x.Init.(*ast.AssignStmt); ok && len(as.Rhs) == 1 {
+			if c, ok := as.Rhs[0].(*ast.CallExpr); ok && len(c.Args) == 1 {
+				return rootOf(target(c.Args[0]))
+			}
+		}
 		if be, ok := x.Cond.(*ast.BinaryExpr); ok {
 			if c, ok := be.X.(*ast.CallExpr); ok && len(c.Args) == 1 {
 				return rootOf(target(c.Args[0]))
@@ -898,6 +1199,31 @@ func stmt(s ast.Stmt) (*node, error) {
 		}
 		return &node{kind: "kv", target: target(x.X), body: kb, body2: vb}, nil
 	case *ast.IfStmt:
+		if x.Else == nil && x.Init != nil {
+			// if err2 := Validate<Type>(target); err2 != nil { err = goa.MergeErrors(err, err2) }
+			as, ok := x.Init.(*ast.AssignStmt)
+			if !ok || len(as.Lhs) != 1 || len(as.Rhs) != 1 || target(as.Lhs[0]) != "err2" {
+				return nil, fmt.Errorf("if with an init of unknown shape")
+			}
+			call, ok := as.Rhs[0].(*ast.CallExpr)
+			fn := ""
+			if ok {
+				fn = exprName(call.Fun)
+			}
+			be, ok2 := x.Cond.(*ast.BinaryExpr)
+			if !ok || !strings.HasPrefix(fn, "Validate") || len(call.Args) != 1 || !ok2 || be.Op != token.NEQ || target(be.X) != "err2" || len(x.Body.List) != 1 {
+				return nil, fmt.Errorf("call of unknown shape")
+			}
+			m, ok := x.Body.List[0].(*ast.AssignStmt)
+			if !ok || len(m.Rhs) != 1 {
+				return nil, fmt.Errorf("call result not merged")
+			}
+			mc, ok := m.Rhs[0].(*ast.CallExpr)
+			if !ok || exprName(mc.Fun) != "goa.MergeErrors" || len(mc.Args) != 2 || target(mc.Args[1]) != "err2" {
+				return nil, fmt.Errorf("call result not merged into err")
+			}
+			return &node{kind: "call", viol: strings.TrimPrefix(fn, "Validate"), target: target(call.Args[0])}, nil
+		}
 		if x.Else != nil || x.Init != nil {
 			return nil, fmt.Errorf("if with else/init")
 		}
